@@ -843,6 +843,10 @@ class ELF(object):
         c[0] = bytes(self.Ehdr)
         c[self.Ehdr.phoff] = bytes(self.ph)
         for s in self.sh:
+            if isinstance(s, NoBitsSection):
+                # No data in the file: its offset may be beyond the end of
+                # the file, which must not be padded up to it
+                continue
             c[s.sh.offset] = bytes(s.content)
         c[self.Ehdr.shoff] = bytes(self.sh)
         return bytes(c)
